@@ -105,6 +105,13 @@ class Predicate(Symbol, ABC):
         Evaluate the predicate for the supplied values.
         """
 
+    def __bool__(self) -> bool:
+        """
+        A predicate over concrete values holds where calling it does: used as a condition (entity(x, HasType(y, T)) with
+        a concrete y) it is judged by its verdict, when the query is evaluated.
+        """
+        return bool(self())
+
 
 @dataclass(eq=False)
 class HasType(Predicate):
